@@ -108,6 +108,17 @@ static Level fam_graphs(int nfiles, int maxslots_last) {
   return {"include graphs over " + std::to_string(nfiles) + " files (last file <=" + std::to_string(maxslots_last) + " slots)", [=](const CB &cb) { enum_graphs(nfiles, maxslots_last, cb); }};
 }
 
+// include chains of depth 1..N: file f_i holds a marker, an include of f_{i+1} and another marker; every file label and line
+// must survive the return from the deepest file (one-parameter family, every rung)
+static Level fam_chain(int maxdepth) {
+  return {"include chains of depth 1.." + std::to_string(maxdepth), [=](const CB &cb) {
+            for (int d = 1; d <= maxdepth; d++) for (int variant = 0; variant < 3; variant++) {
+              Case c; c.main = "f0";
+              for (int i = 0; i < d; i++) c.files["f" + std::to_string(i)] = "a" + std::to_string(i) + "\ninclude \"f" + std::to_string(i + 1) + "\"\nb" + std::to_string(i) + (variant == 1 ? " include \"f" + std::to_string(d) + "\" c" + std::to_string(i) : "") + "\n";
+              c.files["f" + std::to_string(d)] = variant == 2 ? "z include \"f0\" y" : "z";
+              cb(c);
+            } }};
+}
 static void oracle_C15(const Case &c, vf::Stats &st) {
   st.add("cases");
   ref::ScanOut want = ref::scan(c.files, c.main);
@@ -149,11 +160,11 @@ int main(int argc, char **argv) {
   std::vector<Level> L; std::function<void(const Case &, vf::Stats &)> o;
   if (args.prop == "C14") {
     o = oracle_C14;
-    L = {fam_pieces(1, 0), fam_bytes(4), fam_bytes2(4), fam_pieces(2, 0), fam_graphs(3, 1), fam_bytes(5)};
+    L = {fam_pieces(1, 0), fam_chain(40), fam_bytes(4), fam_bytes2(4), fam_pieces(2, 0), fam_graphs(3, 1), fam_bytes(5)};
     if (T) { L.push_back(fam_bytes2(5)); L.push_back(fam_graphs(3, 2)); L.push_back(fam_pieces(3, 60)); L.push_back(fam_bytes(6)); }
   } else if (args.prop == "C15") {
     o = oracle_C15;
-    L = {fam_graphs(2, 2), fam_graphs(3, 1), fam_graphs(3, 2)};
+    L = {fam_graphs(2, 2), fam_chain(40), fam_graphs(3, 1), fam_graphs(3, 2)};
     if (T) { L.push_back(fam_graphs(4, 0)); L.push_back(fam_graphs(4, 1)); }
   } else { fprintf(stderr, "ERROR: unknown property %s\n", args.prop.c_str()); return 2; }
   return drv::run<Case>(args, L, o, {}, 3);  // a scan takes microseconds; 3 s (15 s when re-run alone) means it does not terminate
